@@ -80,16 +80,21 @@ def senderBlocks (q : Quad) (l e : Nat) : Nat → Nat → Nat → List (Nat × N
     let (k, s, en) := senderBlock q l e sbn off
     if en = l then [(k, s, en)] else (k, s, en) :: senderBlocks q l e fuel (sbn+1) en
 
-/-- Receiver sizing (src/receiver/objectreceiver.rs): the source block length it uses for block
-    `sbn` when the payload ID does not carry one. -/
+/-- Receiver sizing (src/receiver/objectreceiver.rs `push_to_block2`): the source block length it uses for block
+    `sbn` (a `u32` from the payload id) when the payload ID does not carry one:
+    `match payload_id.sbn < self.nb_a_large as u32 { true => self.a_large as u32, _ => self.a_small as u32 }`
+    - the three `as u32` casts truncate. -/
 def receiverBlockSymbols (q : Quad) (sbn : Nat) : Nat :=
   let (aL, aS, nL, _) := q
-  if sbn < nL then aL else aS
+  if sbn < nL % 2^32 then aL % 2^32 else aS % 2^32
 
 /-- RaptorQ / Raptor: the sender writes `Z = nb_blocks` into the scheme-specific info
     (src/sender/filedesc.rs `FileDesc::new`), the receiver recomputes the maximum source block length as
-    `div_ceil(div_ceil(F, Z), T)` (src/common/alccodec/alcraptorq.rs, alcraptor.rs `get_fti`, and
-    src/common/fdtinstance.rs for the FDT-borne OTI).  `z = 0` is rejected by the parsers before this point. -/
+    `div_ceil(div_ceil(F, Z), T)` (src/common/alccodec/alcraptorq.rs, alcraptor.rs `get_fti`; the FDT-borne OTI
+    carries B verbatim instead).  `z = 0` is rejected by the parsers before this point. -/
 def reconstructB (l e z : Nat) : Nat := divCeil (divCeil l z) e
+
+/-- what the parser stores: `maximum_source_block_length as u32` -/
+def reconstructB32 (l e z : Nat) : Nat := reconstructB l e z % 2^32
 
 end Flute.Partition
